@@ -218,6 +218,30 @@ func (s *State) lookupStore(path string) (storeEnt, bool) {
 	return storeEnt{}, false
 }
 
+// exactEntry: the store entry holding the value of a local location, following
+// whole-struct copies between locals (x = *y, or the struct an inlined helper
+// returned by value). zero reports that the location was never assigned on
+// this path (the root struct literal is tracked, so it still has its zero value).
+func (s *State) exactEntry(path string) (ent *CE, final string, zero bool) {
+	for i := 0; i < 6; i++ {
+		e, ok := s.lookupStore(path)
+		if !ok {
+			if i > 0 && strings.HasPrefix(path, "new@") && !s.killedAround(path) {
+				return nil, path, true
+			}
+			return nil, path, false
+		}
+		if e.suffix == "" {
+			return e.ce, path, false
+		}
+		if !strings.HasPrefix(e.ce.S, "new@") {
+			return nil, path, false
+		}
+		path = e.ce.S + e.suffix
+	}
+	return nil, path, false
+}
+
 // ReadLocal returns the canonical value last stored at a local location on
 // this path, following struct copies between locals.
 func (s *State) ReadLocal(path string) (string, bool) {
@@ -461,9 +485,9 @@ type Atom struct {
 	Const *bool
 	Kind  string
 	X, Y  string
-	C     string // for eq family: the constant compared with
+	C     string   // for eq family: the constant compared with
 	In    []string // for eq family: membership in this set of constants (instead of C)
-	Neg   bool   // truth of the condition = !truth(atom) when Neg
+	Neg   bool     // truth of the condition = !truth(atom) when Neg
 	Deps  map[ssa.Value]bool
 	Reads []memRead
 	XV    ssa.Value // resolved operand (for nil atoms)
@@ -493,13 +517,27 @@ func bptr(b bool) *bool { return &b }
 // resolution of phis and locals.
 func (ex *Explorer) AtomOf(st *State, v ssa.Value) *Atom {
 	// a boolean read back from a tracked local: the atom decoded when it was stored
-	if ld, ok := v.(*ssa.UnOp); ok && ld.Op == token.MUL && st != nil {
+	pv := v
+	for i := 0; i < 8 && st != nil; i++ {
+		phi, ok := pv.(*ssa.Phi)
+		if !ok {
+			break
+		}
+		k, ok := st.phis[phi]
+		if !ok || k < 0 || k >= len(phi.Edges) {
+			break
+		}
+		pv = phi.Edges[k]
+	}
+	if ld, ok := pv.(*ssa.UnOp); ok && ld.Op == token.MUL && st != nil {
 		c := &canonCtx{ex: ex, st: st, deps: map[ssa.Value]bool{}}
 		if p := c.loc(ld.X); strings.HasPrefix(p, "new@") {
-			if e, ok := st.lookupStore(p); ok && e.suffix == "" && e.ce.Atom != nil {
-				cp := *e.ce.Atom
-				cp.Alias = fmt.Sprintf("boolvar:%s@%p", p, e.ce)
+			if ce, fp, zero := st.exactEntry(p); ce != nil && ce.Atom != nil {
+				cp := *ce.Atom
+				cp.Alias = fmt.Sprintf("boolvar:%s@%p", fp, ce)
 				return &cp
+			} else if zero {
+				return &Atom{Const: bptr(false)} // a boolean field never assigned since the literal was built
 			}
 		}
 	}
@@ -647,6 +685,9 @@ func (ex *Explorer) AtomOf(st *State, v ssa.Value) *Atom {
 		}
 	}
 	ce := ex.Canon(st, v)
+	if ce.S == "true" || ce.S == "false" {
+		return &Atom{Const: bptr(ce.S == "true")} // e.g. a boolean field of a struct a helper returned by value
+	}
 	return &Atom{Kind: "bool", X: ce.S, Deps: ce.Deps, Reads: ce.Reads}
 }
 
@@ -1742,8 +1783,8 @@ func (ex *Explorer) resolveKeepBox(st *State, v ssa.Value) ssa.Value {
 				c := &canonCtx{ex: ex, st: st, deps: map[ssa.Value]bool{}}
 				p := c.loc(x.X)
 				if strings.HasPrefix(p, "new@") {
-					if e, ok := st.lookupStore(p); ok && e.suffix == "" && e.ce.V0 != nil {
-						v = e.ce.V0
+					if ce, _, _ := st.exactEntry(p); ce != nil && ce.V0 != nil {
+						v = ce.V0
 						continue
 					}
 				}
